@@ -181,3 +181,6 @@ package strategy
 //@   loop 1 invariant forall j int :: 0 <= j && j < len(podsToCreate) ==> (podsToCreate[j] in params.PodByNodeName) && params.PodByNodeName[podsToCreate[j]] == nil
 //@             && exists k int :: 0 <= k && k < iter() && podsToCreate[j] == params.NodeByName[params.CanaryNodes[k]]
 //@   loop 1 invariant forall j int :: 0 <= j && j < len(podsToCheckForRestarts) ==> podsToCheckForRestarts[j] != nil && podsToCheckForRestarts[j].Status.StartTime != nil
+//@
+//@ func NewNodeItem
+//@   transparent
